@@ -58,10 +58,11 @@ var c03ConsumedExceptions = map[string]string{
 }
 
 func checkC03(r *core.Run) {
-	r.Rule("R-C03-ranges", "on every accepting path ECDSA verification has rejected r,s outside [1,n-1]; BIP340 verification has rejected s >= n, r >= p, an unliftable key, an infinite or odd-Y nonce point")
+	r.Rule("R-C03-ranges", "on every accepting path ECDSA verification has rejected r,s outside [1,n-1]; BIP340 verification has rejected s >= n, r >= p, an unliftable key, an infinite or odd-Y nonce point; the taproot tweak check has rejected an unliftable internal key, a tweak >= n and an infinite result")
 	r.Rule("R-C03-keys", "public key parsers reject coordinates >= p and accept only after the curve equation was checked; every accepting return is the validation result or is dominated by it")
 	r.Rule("R-C03-consumed", "the boolean result of every key/signature validation function is consumed at every call site in the program")
 	r.Rule("R-C03-sign", "the signers reject zero s, negate s above n/2 (FORCE_LOW_S true), pad DER integers whose top bit is set, draw nonces in [1,n-1], and the BIP340 signer rejects d outside [1,n-1], zero nonces and self-verifies")
+	r.Rule("R-C03-defined", "in lib/secp256k1 a local point, field or number record is read or tested only after, on every path, something has written it (a store, a call that writes through that argument): a result tested before the call that computes it shows the zero value and the test never fires")
 	r.Rule("R-C03-bounds", "the signature and key parsers read only inside the bytes they were given: every index and slice bound computed from the input (DER lengths) is entailed, against len and not merely cap, by the guards that dominate it - bytes behind the end of the offered string are not part of the signature")
 	r.Explain = "Static: guard/provenance rules over the SSA of lib/secp256k1 and lib/btc: each acceptance condition of the statement is located as a branch whose rejecting edge leads only to rejecting returns and which dominates every accepting return."
 	r.NotCov = "That the group arithmetic makes the verification equation true for valid signatures (see C08), equality with RFC6979/BIP340 reference outputs, recovery returning the signer's key (numerical)."
@@ -74,6 +75,7 @@ func checkC03(r *core.Run) {
 	c08SpecialCases(r, p, "R-C03-ranges")
 	c03HybridParity(r, p)
 	c03ParsersInside(r, p)
+	localsDefinedBeforeRead(r, p, "R-C03-defined", "lib/secp256k1", c03DefinedExceptions)
 
 	// ---- ECDSA ranges ----
 	ver := p.Func(secp + ".(*Signature).Verify")
@@ -144,6 +146,10 @@ func checkC03(r *core.Run) {
 	guardOb(r, p, "R-C03-ranges", "taproot/internal-key-liftable", "tweak check rejects an unliftable internal key", an.GuardSpec{Fn: cp, Dom: "returns", Fail: falseRes,
 		Match: an.MatchBoolCallAtoms(false, "(*"+secp+".XY).ParseXOnlyPubkey", "param#1")})
 	ta := p.Func(secp + ".(*XY).XOnlyPubkeyTweakAddCheck")
+	guardOb(r, p, "R-C03-ranges", "taproot/tweak<n", "tweak check rejects a tweak that is not below the group order (BIP341: t >= n fails; it is not reduced)", an.GuardSpec{Fn: ta, Dom: "returns", Fail: falseRes,
+		Match: an.AnyOf(
+			an.MatchBoolCallAtoms(false, "(*"+secp+".Number).is_below", "global:"+secp+".TheCurve", "~.Order", "param#3"),
+			an.MatchCmpConst(0, token.GEQ, "call:(*math/big.Int).Cmp", "global:"+secp+".TheCurve", "~.Order", "param#3"))})
 	guardOb(r, p, "R-C03-ranges", "taproot/tweak-add-ok", "tweak check rejects when the tweaked point is infinity", an.GuardSpec{Fn: ta, Dom: "returns", Fail: falseRes,
 		Match: an.MatchBoolCall(false, "(*"+secp+".XY).ECPublicTweakAdd")})
 
@@ -869,3 +875,6 @@ func c03ParsersInside(r *core.Run, p *core.Program) {
 	reportBounds(r, p, "R-C03-bounds", ba, nil)
 	r.Count("parser_bounds_functions", len(ba.FuncsAnalysed))
 }
+
+// c03DefinedExceptions: reads of a local that is deliberately still zero (key -> reason).
+var c03DefinedExceptions = map[string]string{}
